@@ -19,6 +19,7 @@ import (
 var negInf, posInf = math.Inf(-1), math.Inf(1)
 
 type iterState struct {
+	owner  *Exec // the execution this state belongs to (a re-execution, e.g. while shrinking, starts afresh)
 	cursor int
 	done   bool
 	pages  int
@@ -36,6 +37,9 @@ func KeyIteration(pat string, ktype, count int) *Step {
 	it := &iterState{}
 	st := &Step{}
 	st.Gen = func(x *Exec) *Op {
+		if it.owner != x {
+			*it = iterState{owner: x}
+		}
 		if it.done {
 			return nil
 		}
@@ -101,6 +105,9 @@ func CollIteration(fam byte, key, pat string, count int) *Step {
 	st := &Step{}
 	name := map[byte]string{'E': "EScan", 'H': "HScan", 'Z': "ZScan"}[fam]
 	st.Gen = func(x *Exec) *Op {
+		if it.owner != x {
+			*it = iterState{owner: x}
+		}
 		if it.done {
 			return nil
 		}
